@@ -84,6 +84,11 @@ CLAIMED = {
         'followed by one query with every memory access checked: the outcome must be an exception or a memory-safe, initialised evaluation, inconsistent list lengths must be rejected, and every accepted option string must leave a defined state.',
    note=TB + 'NOT covered: "all byte strings / all JSON documents", schema validation, formatting variants (rapidjson, schema validator and std::string/iostream code cannot be encoded with the installed tools; that layer is fuzzing territory). The stub respects the schema\'s own array-size limits. One known finding (spreading-velocity list length) is listed in known_findings.jsonl.',
    technique='symbolic execution of clang LLVM IR + z3 with a nondeterministic stub of the JSON layer; memory safety checked by the executor on every path', design='4/C12'),
+ 'C13': dict(
+   text='Narrowed to kernels and models (not whole worlds): (a) memory safety and termination for ARBITRARY doubles including NaN and infinities of the polygon test, the kd-tree construction and search, the area-feature property functions and the closed-form models, with every arithmetic result abstracted to an arbitrary value (sound over-approximation) and every access checked by the executor; '
+        '(b) domain safety over the reals: on every explored path of the listed models and of the ellipse formula no division has a divisor that can be zero and no sqrt/acos/log argument leaves its domain, for all parameters in the schema domain.',
+   note=TB + 'NOT covered: finiteness under rounding/overflow; the slab kernel and the Bezier Newton search (150x10 iterations of double arithmetic: terminate by constant loop bounds but no solver verdict on their values); degenerate geographic locations that only matter through those kernels; whole-world queries.',
+   technique='symbolic execution of clang LLVM IR + z3: abstract-arithmetic FP mode for safety/termination, QF_NRA for divisor/domain queries', design='4/C13'),
 }
 NA_DEFAULT = 'check not built yet (work in progress; see DESIGN.md section 4 for the planned obligations)'
 NA = {
